@@ -225,5 +225,5 @@ def run(tier="quick"):
     rep.not_decided = ["numerical value of the time-weighted mean"]
     for m in models:
         rep.configs.append(m.config)
-        rules(rep, m)
+        common.run_rules(rep, m, rules)
     return rep.finish()
